@@ -721,6 +721,9 @@ class SsbGraphMinimizer:
                         e = self._reconnect(g, v_before, in_edges[0], v_after, True)
                         e["flow_level"] = e["flow_level"] + 1
                         self._update_edge_style(e)
+                    elif v.index == 0:
+                        # The routine starts with this jump. Without it the next vertex would become the entry point.
+                        continue
                     vs_to_delete.add(v)
             g.delete_vertices(vs_to_delete)
             vs_to_delete = set()
